@@ -36,6 +36,26 @@ algorithm entropy transform bitstream dictionary Burrows Wheeler Huffman arithme
 func Make(shape string, n int, seed int64) []byte {
 	r := core.Derive(seed, "gen", shape, n)
 	b := make([]byte, 0, n+64)
+	if strings.HasPrefix(shape, "alpha:") {
+		// exactly k distinct symbols (when n >= k), mildly skewed: boundary cases of the alphabet / frequency headers
+		k := 1
+		fmt.Sscanf(shape[6:], "%d", &k)
+		k = max(1, min(k, 256))
+		base := r.Intn(257 - k)
+		for i := 0; i < n; i++ {
+			if i < k {
+				b = append(b, byte(base+i))
+			} else {
+				b = append(b, byte(base+zipf(r, k)))
+			}
+		}
+		// shuffle a little so that the first k bytes are not a ramp
+		for i := 0; i+1 < len(b) && i < 4*k; i++ {
+			j := r.Intn(len(b))
+			b[i], b[j] = b[j], b[i]
+		}
+		return b
+	}
 	switch shape {
 	case "text", "textcrlf":
 		nl := "\n"
